@@ -492,7 +492,42 @@ def r_version_pairing(ctx):
             ctx.violation('%s:name-table-rebuilt-for-%s' % (f.qualname, 'constant-%s' % arg.value if isinstance(arg, ast.Constant) else 'other-value'), f.loc(c),
                           'the name table is rebuilt for `%s`, which is not the enabled code version at that point: calls resolve to the wrong implementation'
                           % unparse(arg), instance=inst)
-    ctx.expect_min(3)
+    # the other direction: wherever the enabled version is (re)written -- explicitly or by restoring the whole attribute
+    # dictionary from a snapshot -- every normal path to the function's normal exit passes a rebuild of the table
+    for f in P.methods_of(R.S):
+        if f.name == '__init__' or f is rebuild:
+            continue
+        stores = [st for st, k in U.assigns_to_attr(P, f, R.enabledVersion)]
+        stores += [a.node for a in P.accesses(f, include_nested=False) if a.kind == 'wildcard' and isinstance(a.node, (ast.Assign, ast.AugAssign))]
+        if not stores:
+            continue
+        if not f.name.startswith('__') or f.name.endswith('__'):
+            pass
+        elif not P.callers_of(f):
+            ctx.info('%s stores the enabled version but has no caller' % f.qualname, f.loc(), 'dead code, not an obligation')
+            continue
+        cfg = U.explorer(ctx, f).cfg
+        rb = [U.node_containing(cfg, c).id for g, c in callers if g is f]
+        for st in stores:
+            sn = U.node_containing(cfg, st)
+            if sn is None:
+                continue
+            inst = '%s: `%s` is followed by a rebuild of the name table' % (f.qualname, unparse(st)[:50])
+            ctx.tick()
+            others = [U.node_containing(cfg, o).id for o in stores if o is not st]
+            starts = [d for d, l in sn.succ if not (isinstance(l, tuple) and l[0] == 'exc')]
+            reach = set()
+            for d in starts:
+                if d in rb:
+                    continue
+                reach |= cfg.reachable_from(d, avoid=rb, follow_exc=False)
+            if cfg.exit.id in reach:
+                ctx.violation('%s:version-written-without-table-rebuild' % f.qualname, f.loc(st),
+                              'after `%s` the function can return normally without rebuilding the versioned method-name table: the node reports the restored / new '
+                              'enabled version but keeps resolving calls with the table of the old one' % unparse(st)[:60], instance=inst)
+            else:
+                ctx.ok(inst, f.loc(st), 'normal exit unreachable from the store when the rebuild call is removed')
+    ctx.expect_min(5)
 
 
 @rule('R-transfer-restart', 'a snapshot transfer to a node that lost its connection restarts from the first chunk: the sender '
@@ -604,3 +639,89 @@ def r_transfer_flags(ctx):
         ctx.violation('Serializer.getTransmissionData:last-flag', g.loc(lasts[0].ast) if lasts else g.loc(),
                       'the last-chunk flag is not "the read returned nothing" / the finished transfer is not forgotten: the leader re-sends or never finishes the snapshot', instance=inst)
     ctx.expect_min(3)
+
+
+@rule('R-serializer-idle', 'the serializer leaves its busy state whenever it reports a finished dump: every return of '
+                           'checkSerializing that may carry SUCCESS or FAILED has reset the busy marker that serialize() and '
+                           'getTransmissionData() refuse on')
+def r_serializer_idle(ctx):
+    P = ctx.P
+    S_ = serializer_funcs(ctx)
+    ser = S_.methods['serialize']
+    chk = S_.methods['checkSerializing']
+    gtd = S_.methods['getTransmissionData']
+    # busy marker: the attribute both serialize() and getTransmissionData() compare with a constant before an early return
+
+    def early_guard_attrs(m):
+        out = []
+        for st in m.node.body[:3]:
+            if isinstance(st, ast.If) and isinstance(st.test, ast.Compare) and len(st.test.ops) == 1 and st.body and isinstance(st.body[-1], ast.Return):
+                a = P.self_attr(st.test.left, m.self_name)
+                if a and isinstance(st.test.comparators[0], ast.Constant):
+                    out.append((a, st.test.comparators[0].value, st.test.ops[0]))
+        return out
+    g1, g2 = early_guard_attrs(ser), early_guard_attrs(gtd)
+    common = [x for x in g1 if any(x[0] == y[0] and x[1] == y[1] for y in g2)]
+    ctx.require(common, 'busy marker (attribute compared with a constant at the top of serialize() and getTransmissionData()) not found')
+    marker, idle, op = common[0]
+    ctx.require(isinstance(op, ast.NotEq), 'busy guard is not `marker != <idle value>`')
+    ex = U.explorer(ctx, chk)
+    cfg = ex.cfg
+    res = U.full_run(ctx, chk)
+    terminal = {'SUCCESS', 'FAILED'}
+
+    def state_names(e, depth=0):
+        """(set of SERIALIZER_STATE member names the expression may denote, exact?)"""
+        if isinstance(e, ast.Attribute) and isinstance(e.value, ast.Name) and e.value.id == 'SERIALIZER_STATE':
+            return {e.attr}, True
+        if isinstance(e, ast.IfExp):
+            a, ea = state_names(e.body, depth)
+            b, eb = state_names(e.orelse, depth)
+            return a | b, ea and eb
+        if isinstance(e, ast.Name) and depth < 3:
+            defs = [d.value for d in U.walk_no_nested(chk.node) if isinstance(d, ast.Assign) and len(d.targets) == 1 and isinstance(d.targets[0], ast.Name) and d.targets[0].id == e.id]
+            if defs:
+                names, exact = set(), True
+                for d in defs:
+                    a, ea = state_names(d, depth + 1)
+                    names |= a
+                    exact = exact and ea
+                return names, exact
+        return set(), False
+    goal = ('eq', ex.tb.term(U.parse_expr('self.%s' % marker)), ex.tb.term(ast.Constant(value=idle)))
+    n_ret = 0
+    for n in cfg.nodes:
+        if n.kind != 'stmt' or not isinstance(n.ast, ast.Return) or n.ast.value is None or not res.reached(n.id):
+            continue
+        v = n.ast.value
+        first = v.elts[0] if isinstance(v, ast.Tuple) and v.elts else v
+        names, exact = state_names(first)
+        inst = 'return `%s` leaves the serializer idle when it reports a finished dump' % unparse(v)[:60]
+        n_ret += 1
+        if exact and not (names & terminal):
+            ctx.ok(inst, chk.loc(n.ast), 'reports %s: not a finished dump' % sorted(names), nontrivial=False)
+            continue
+        bad = None
+        for fs in res.facts_at(n.id):
+            ctx.tick()
+            if oracle.entails(fs, goal):
+                continue
+            if not exact:
+                # a state held in a variable: the path matters only if the variable may be SUCCESS / FAILED
+                ft = ex.tb.term(first)
+                cant = all(oracle.entails(fs, ('ne', ft, ex.tb.term(U.parse_expr('SERIALIZER_STATE.%s' % t)))) for t in terminal)
+                if cant:
+                    continue
+                if not names:
+                    # value of unknown origin (user checker): an explicit membership test must have been passed
+                    if not any(l[0] == 'in' and l[1] == ft for l in fs):
+                        continue
+            bad = fs
+            break
+        if bad is None:
+            ctx.ok(inst, chk.loc(n.ast), 'self.%s == %r entailed on every path that can report SUCCESS / FAILED' % (marker, idle))
+        else:
+            ctx.violation('%s:finished-dump-leaves-serializer-busy' % chk.qualname, chk.loc(n.ast),
+                          'checkSerializing can return `%s` with self.%s still != %r: serialize() and getTransmissionData() refuse forever afterwards '
+                          '(no further compaction, and a lagging follower is never sent the snapshot): %s' % (unparse(v), marker, idle, res.path_str(n.id, bad)), instance=inst)
+    ctx.expect_min(5, 'returns of checkSerializing')
